@@ -48,7 +48,11 @@ CONFIG = dict(
     design_ref="DESIGN.md section 5 C15",
     trusted_base=["models M_Greenlet.v / M_Slice.v are hand-written",
                   "harness/stackgen.py + c15.py abstract live greenlets to (gr_frame, bool, is-current, parent.gr_frame) and f_back chains"],
-    assumptions=["CPython; a greenlet's f_back chain ends at its run function (greenlet >= 1.0 behaviour)",
+    assumptions=["a frame whose globals' __name__ starts with 'stackscope.' (and not 'stackscope._tests.') is taken for one of "
+                 "stackscope's own by get_true_caller and skipped when locating the caller (modelled: M_Slice.is_mine; exercised "
+                 "by the 'm' frames); a frame whose globals have no __name__ at all (exec with a bare namespace) is an ordinary "
+                 "user frame (exercised by the 'n' frames and the exec'd greenback probe)",
+                 "CPython; a greenlet's f_back chain ends at its run function (greenlet >= 1.0 behaviour)",
                  "the greenlet tree does not change during one extraction"],
     unproved_legs=["greenback: the frame shapes of greenback/greenlet/outcome/trio (what each object unwraps to, which frames "
                    "follow which) are modelled from recorded runs, not derived; agreement of M_Greenback.gb_extract with the real "
@@ -67,7 +71,11 @@ CONFIG = dict(
 
 
 SUSP = ["", "Gp", "Gpp", "GpGp", "GppGpp", "GpGpGp", "GpgGpc", "GpGppp"]
-ASKER = ["p", "pp", "Gp", "pGp", "GpGp", "pGpGp", "GpGpGp", "gGpc", "Gm", "pGpm", "GpdGp", "cGpg", "pUp"]
+# kinds n (exec'd with a bare namespace: no __name__ in the globals), x / t / s (module names that merely
+# look like stackscope's) and m (a name under "stackscope.": such frames count as stackscope's own and are
+# skipped by get_true_caller) also as the frame that calls extract() and as intermediate frames
+ASKER = ["p", "pp", "Gp", "pGp", "GpGp", "pGpGp", "GpGpGp", "gGpc", "Gm", "pGpm", "GpdGp", "cGpg", "pUp",
+         "n", "Gn", "pGn", "GpGn", "GnGp", "Gnn", "nGpn", "Gx", "Gpt", "Gs", "GnGm", "Gnm"]
 
 
 def make_inputs(tier, seed):
@@ -87,6 +95,13 @@ def make_inputs(tier, seed):
         yield {"_kind": "gb", "inside": False, "n": n, "j": 0}
         for j in range(jmax + 1):
             yield {"_kind": "gb", "inside": True, "n": n, "j": j}
+    # the frame calling extract() exec'd with a bare namespace (no __name__) / an unrelated module name
+    for n in range(nmax + 1):
+        for j in ([0, 1] if tier == "quick" else range(jmax + 1)):
+            for ns in ("bare", "named"):
+                if tier == "quick" and ns == "named" and (n + j + seed) % 2:
+                    continue
+                yield {"_kind": "gb", "host": ["trio", "asyncio"][(n + j) % 2], "inside": True, "n": n, "j": j, "ns": ns}
     # await_ given non-coroutine awaitables (greenback wraps them in adapt_awaitable), both hosts
     for n in range(1, nmax + 1):
         for host in ("trio", "asyncio"):
@@ -124,8 +139,8 @@ def make_inputs(tier, seed):
         def rnd(lo, hi, must_g):
             s = ""
             for j in range(rng.randint(lo, hi)):
-                kd = rng.choice("pppgcm")
-                g = "G" if (kd in "pm" and (rng.random() < 0.4 or (must_g and j == 0))) else ""
+                kd = rng.choice("pppgcmnx")
+                g = "G" if (kd in "pmnx" and (rng.random() < 0.4 or (must_g and j == 0))) else ""
                 if must_g and j == 0 and not g:
                     kd, g = "p", "G"
                 s += g + kd
@@ -297,7 +312,7 @@ def _classes():
 def run_case(desc):
     if desc.get("_kind") == "gb":
         return gb_scenario(desc["inside"], desc["n"], desc["j"], host=desc.get("host", "trio"),
-                           err=desc.get("err"), how=desc.get("how"), awt=bool(desc.get("awt")))
+                           err=desc.get("err"), how=desc.get("how"), awt=bool(desc.get("awt")), ns=desc.get("ns"))
     if desc.get("_kind") == "ghist":
         return run_ghist(desc)
     c = _classes()(desc)
@@ -513,6 +528,7 @@ def classify(desc, obs):
     if desc.get("_kind") == "gb":
         return ["greenback:%s" % ("inside-j%d" % desc["j"] if desc["inside"] else "outside"), "greenback:n=%d" % desc["n"],
                 "greenback:" + desc.get("host", "trio"), "greenback:awaitable=%s" % bool(desc.get("awt")),
+                "greenback:caller-globals=%s" % (desc.get("ns") or "module"),
                 "greenback:throw-" + ("none" if desc.get("err") is None else
                                       ("top" if desc["err"] == desc["n"] else "leaf" if desc["err"] == 0 else "middle")),
                 "greenback:Error.send=%d" % sum(1 for _, _, k in obs["frames"] if k == "Error.send")]
@@ -527,6 +543,7 @@ def classify(desc, obs):
 
 # ------------------------------------------------------------------ greenback
 USER = ("target", "a_level", "s_level", "s_leaf", "nested", "probe", "__await__")
+IGNORED_VISIBLE = ("probe_call",)       # the plain frame through which the exec'd probe is called
 BRIDGE = ("await_", "_greenback_shim", "trampoline", "switch", "send")
 ALLOWED_VISIBLE = ("greenback_shim", "wait", "adapt_awaitable")
 
@@ -542,7 +559,7 @@ def _frames_of(st):
     return out
 
 
-def gb_scenario(inside, n, j, portal=True, host="trio", err=None, how=None, awt=False):
+def gb_scenario(inside, n, j, portal=True, host="trio", err=None, how=None, awt=False, ns=None):
     """A task alternating n times between async code (a_level k) and sync code (s_level k)
     through greenback.await_, hosted by trio or asyncio.  Its stack is extracted (extract(<task
     coroutine>)) either from another task while it is parked at level 0 (outside), or from its own
@@ -574,6 +591,23 @@ def gb_scenario(inside, n, j, portal=True, host="trio", err=None, how=None, awt=
             box["stack"] = stackscope.extract(the_coro(), with_contexts=False)
         finally:
             shadow.pop()
+
+    if ns is not None:
+        # the frame that calls extract() runs code exec'd with a caller-supplied namespace:
+        # "bare" = no __name__ in its globals at all, "named" = some unrelated module name
+        glb = {} if ns == "bare" else {"__name__": "vuser.execd"}
+        exec(compile("def probe(box, shadow, extract, the_coro):\n"
+                     "    shadow.append('probe')\n"
+                     "    try:\n"
+                     "        box['shadow'] = list(shadow)\n"
+                     "        box['stack'] = extract(the_coro(), with_contexts=False)\n"
+                     "    finally:\n"
+                     "        shadow.pop()\n", "<gb-probe>", "exec"), glb)
+        bare_probe = glb["probe"]
+
+        def probe():        # noqa: F811  (a plain frame above the exec'd one; named 'probe_call' in the log)
+            return bare_probe(box, shadow, stackscope.extract, the_coro)
+        probe.__code__ = probe.__code__.replace(co_name="probe_call")
 
     def nested(k):
         shadow.append("nested")
@@ -690,7 +724,7 @@ def gb_oracle(desc, obs, unlinked_await=None):
     own frames are present, bridging internals hidden, no error"""
     if obs["error"] is not None:
         return "error %s" % obs["error"]
-    vis = [nm for nm, hid, _ in obs["frames"] if not hid]
+    vis = [nm for nm, hid, _ in obs["frames"] if not hid and nm not in IGNORED_VISIBLE]
     user = [nm for nm in vis if nm in USER]
     if unlinked_await is not None:
         idx = [i for i, nm in enumerate(obs["shadow"]) if nm == "__await__"][unlinked_await]
@@ -725,6 +759,8 @@ def gb_coq(desc, obs):
     cnt = {}
     ents = []
     for nm, hid, kind in obs["frames"]:
+        if nm in IGNORED_VISIBLE and not hid:
+            continue
         nm = kind if nm == "send" else nm
         if nm in _GBL:
             i = cnt.get(nm, 0)
